@@ -154,6 +154,19 @@ Example C15_ex_mget :
   exists b, mget_reply 6 [[116;58;97]; b] [([116;58;97], [49]); (b, [50])] = None.
 Proof. split; [vm_compute; reflexivity|]. exists [116;58;98]. vm_compute. reflexivity. Qed.
 
+(* (11b) on a node that hosts only some partitions, an MGET is answered only when every key is served here by
+   the same partition; a key whose partition is not hosted (or not ready) makes the command fail — it is never
+   read in the first key's partition *)
+Theorem C15_mget_on_partial_node : forall s pks p,
+  ns_mget_route s pks = Some p -> pks <> [] /\ forall pk, In pk pks -> ns_route s pk = Served p.
+Proof. exact ns_mget_route_served. Qed.
+Print Assumptions C15_mget_on_partial_node.
+
+Theorem C15_mget_rejects_unhosted : forall s pks pk,
+  In pk pks -> ns_route s pk = Rejected -> ns_mget_route s pks = None.
+Proof. exact ns_mget_route_rejects_unhosted. Qed.
+Print Assumptions C15_mget_rejects_unhosted.
+
 (* (12) a partition's part of a merged DEL / EXISTS fails when it names more than [lim] keys (MAX_BATCH_NUM); a
    failed part fails the whole command. So the answer is the one-store count or an error, never the count of the
    other parts alone. *)
